@@ -38,6 +38,12 @@ def norm(t):
 _PAYLOAD = {"Some": "someval", "Ok": "okval", "Err": "errval"}
 
 
+def _impl_canon(callee):
+    """the function that actually runs: for a trait method called on a concrete type (a private `trait ZigZag` on i16..i128) the
+    resolved impl, else the callee itself"""
+    return (callee.get("resolved") or {}).get("canon") or callee["canon"]
+
+
 def residual_calls(path, views=True):
     out = [e for e in path.events if e["k"] == "call" and not e.get("modelled") and not e.get("inlined")]
     if not views:
@@ -167,7 +173,7 @@ class VAR(Cell):
             if i >= len(evs):
                 return None, "expected %s" % want
             z = evs[i]
-            info, why = cx.helpers.zz_enc(z["callee"]["canon"]) if z["callee"] else (None, "indirect call")
+            info, why = cx.helpers.zz_enc(_impl_canon(z["callee"])) if z["callee"] else (None, "indirect call")
             if info is None:
                 return None, "expected %s; first call is %s which is not a verified zig-zag encoder: %s" % (want, z["key"], why)
             if info["N"] != self.N:
@@ -179,7 +185,7 @@ class VAR(Cell):
         if i + 1 >= len(evs):
             return None, "expected %s" % want
         w, x = evs[i], evs[i + 1]
-        info, why = cx.helpers.writer(w["callee"]["canon"]) if w["callee"] else (None, "indirect call")
+        info, why = cx.helpers.writer(_impl_canon(w["callee"])) if w["callee"] else (None, "indirect call")
         if info is None:
             return None, "expected %s; %s is not a verified canonical varint writer: %s" % (want, w["key"], why)
         if info["N"] != self.N:
